@@ -2,9 +2,9 @@ SPECIFICATION Spec
 CONSTANTS
   NB = 4
   OpKinds = {"add", "addu", "rem", "sync"}
-  MaxLen = 3
+  MaxLen = 4
   MaxLevel = 6
-  Inits = {"two", "deep", "wide"}
+  Inits = {"one", "split"}
   Patterns = {"rand"}
   Emit = "state"
 INVARIANTS EmitCase
